@@ -29,6 +29,8 @@ pub struct State {
     pub notify_begun: u64,
     pub notify_ended: u64,
     task_names: HashMap<u64, String>,
+    /// tasks that died of a panic (descriptions)
+    pub panicked: Vec<String>,
 }
 
 pub struct Sched {
@@ -43,6 +45,15 @@ fn registry() -> &'static Mutex<HashMap<String, Arc<Sched>>> {
 
 fn gettid() -> u64 {
     unsafe { libc::syscall(libc::SYS_gettid) as u64 }
+}
+
+/// For the process-wide panic hook: tells the scheduler of the calling (server) thread, if it has one.
+pub fn thread_panicked(description: &str) {
+    let name = std::thread::current().name().map(|s| s.to_string()).unwrap_or_default();
+    let sched = registry().lock().unwrap().get(&name).cloned();
+    if let Some(s) = sched {
+        s.on_thread_panicked(description);
+    }
 }
 
 fn install_callback() {
@@ -167,6 +178,29 @@ impl Sched {
     }
 
     /// uncontrolled mode: wait until every spawned task has ended and `notifications` handlers ended
+    /// Called by the panic hook on a server thread: the task that was running on it (between
+    /// `task.begin` and `task.end`) has died and will never report its end. It counts as ended - what
+    /// it did not publish stays unpublished, which is for the oracles to judge - and is remembered.
+    pub fn on_thread_panicked(&self, description: &str) {
+        let tid = gettid();
+        let mut st = self.st.lock().unwrap();
+        let dead: Vec<String> = st.actors.iter().filter(|(n, a)| n.starts_with('t') && a.tid == tid && a.live && !a.finished).map(|(n, _)| n.clone()).collect();
+        for n in dead {
+            if let Some(a) = st.actors.get_mut(&n) {
+                a.live = false;
+                a.finished = true;
+            }
+            st.ended += 1;
+            st.panicked.push(description.to_string());
+        }
+        drop(st);
+        self.cv.notify_all();
+    }
+
+    pub fn panicked_tasks(&self) -> Vec<String> {
+        self.st.lock().unwrap().panicked.clone()
+    }
+
     pub fn wait_idle(&self, notifications: u64, timeout: Duration) -> bool {
         let deadline = Instant::now() + timeout;
         let mut st = self.st.lock().unwrap();
